@@ -1026,7 +1026,8 @@ type callersCase struct {
 }
 
 var callerProgs = []string{"write0", "write1", "write2", "query", "queryOne", "getjournals", "getjournals-limit", "getjournal",
-	"partitions", "info", "truncate-dry", "truncate", "truncate-empty", "show", "describe", "getjournals-fail"}
+	"partitions", "info", "truncate-dry", "truncate", "truncate-empty", "show", "describe",
+	"truncate-dry-global", "truncate-global", "truncate-dry-global-lql", "truncate-global-lql", "getjournals-fail"}
 
 func counts(srv *lrsrv.Srv) (string, bool) {
 	bad := false
@@ -1049,7 +1050,12 @@ func runCallers(c callersCase, sec *vh.Section) {
 		res.Note("callers: %v", err)
 		return
 	}
-	defer srv.Stop()
+	defer func() {
+		// (after a panic inside Release the tag index mutex stays locked: a shutdown would wait for ever)
+		if !vh.WithTimeout(10*time.Second, srv.Stop) {
+			res.Note("callers: the server did not shut down within 10 s after %v", c.Progs)
+		}
+	}()
 	fc := &failCtrl{Controller: srv.Parts.Journals, fail: map[string]bool{}}
 	srv.Parts.Journals = fc
 	ctx := context.Background()
@@ -1137,6 +1143,15 @@ func runCallers(c callersCase, sec *vh.Section) {
 				srv.Parts.Truncate(ctx, partition.TruncateParams{DryRun: true, TagsExpr: all, MaxSrcSize: 1}, nil)
 			case "truncate":
 				srv.Parts.Truncate(ctx, partition.TruncateParams{TagsExpr: all, MaxSrcSize: 1}, nil)
+			case "truncate-dry-global":
+				// nothing to cut per partition, but the data base is over its size: the global pass acquires each partition
+				srv.Parts.Truncate(ctx, partition.TruncateParams{DryRun: true, TagsExpr: all, MaxDBSize: 1}, nil)
+			case "truncate-global":
+				srv.Parts.Truncate(ctx, partition.TruncateParams{TagsExpr: all, MaxDBSize: 1}, nil)
+			case "truncate-dry-global-lql":
+				srv.Exec("truncate dryrun maxdbsize 1")
+			case "truncate-global-lql":
+				srv.Exec("truncate maxdbsize 1")
 			case "truncate-empty":
 				// a partition known to the tag index only (size 0): Truncate deletes it from inside its visit
 				if src, _, err := srv.TIndex.GetOrCreateJournal(fmt.Sprintf("c14=pe%d", pi)); err == nil {
@@ -1173,7 +1188,7 @@ func runCallers(c callersCase, sec *vh.Section) {
 
 func sectionCallers(rng *vh.Rng) {
 	sec := res.Section("callers", "spec-search",
-		"sequences of the real caller programs on the in-process server (RPC Write and Query, partition.Service.GetJournals incl. limit exceeded and an injected Journals.GetOrCreate failure, GetJournal, Partitions, GetParitionInfo, Truncate dry/real/deleting an empty partition, SHOW PARTITIONS, DESCRIBE PARTITION): after every program all readers are 0 and nothing is exclusively locked; non-trivial = at least 3 programs, distinct by program list")
+		"sequences of the real caller programs on the in-process server (RPC Write and Query, partition.Service.GetJournals incl. limit exceeded and an injected Journals.GetOrCreate failure, GetJournal, Partitions, GetParitionInfo, Truncate dry/real/deleting an empty partition/global pass (MAXDBSIZE exceeded) dry and real through the service and through the TRUNCATE statement, SHOW PARTITIONS, DESCRIBE PARTITION): after every program all readers are 0 and nothing is exclusively locked; non-trivial = at least 3 programs, distinct by program list")
 	var cases []callersCase
 	for _, f := range vh.CorpusFiles(args.Corpus) {
 		var rp struct {
@@ -1242,7 +1257,12 @@ func sectionStress(rng *vh.Rng) {
 		res.Note("stress: %v", err)
 		return
 	}
-	defer srv.Stop()
+	stopOnExit := true
+	defer func() {
+		if stopOnExit {
+			vh.WithTimeout(10*time.Second, srv.Stop)
+		}
+	}()
 	ctx, cancel := context.WithTimeout(context.Background(), 40*time.Second)
 	defer cancel()
 	all, _ := lql.ParseSource("c14 like \"s*\"")
@@ -1301,12 +1321,12 @@ func sectionStress(rng *vh.Rng) {
 		srv.Parts.Truncate(context.Background(), partition.TruncateParams{TagsExpr: all, MaxSrcSize: 1, MaxDBSize: 1}, nil)
 		time.Sleep(2 * time.Millisecond)
 	})
-	wg.Wait()
+	hung := !vh.WithTimeout(70*time.Second, wg.Wait)
 	time.Sleep(100 * time.Millisecond)
 	for i := 0; i < nTr; i++ {
 		res.Eval(sec, "") // one evaluation per Truncate pass that raced the readers and writers
 	}
-	tainted := false
+	tainted, panicked := false, false
 	panics.Range(func(k, v interface{}) bool {
 		if strings.Contains(fmt.Sprint(v), "ctrlr.(*chunkWrapper)") {
 			// a chunk removed under a reader inside the journal library (chunk level, C09's area) — not the partition
@@ -1315,10 +1335,16 @@ func sectionStress(rng *vh.Rng) {
 			res.Note("stress: %v goroutine hit a nil dereference inside the journal library's chunkWrapper (chunk deleted under a reader); counts of this run are not judged", k)
 			return true
 		}
+		panicked = true
 		res.SpecFail(vh.SpecFailure{Section: "stress", Kind: "panic", Input: map[string]interface{}{"seed": args.Seed}, Impl: fmt.Sprint(v), Spec: "no panic", What: fmt.Sprintf("%v goroutine panicked during the TRUNCATE/query/write race", k)})
 		return true
 	})
-	if tainted {
+	if hung && !panicked {
+		res.SpecFail(vh.SpecFailure{Section: "stress", Kind: "hang", Input: map[string]interface{}{"seed": args.Seed}, Impl: "goroutines still blocked 30 s after the race was stopped", Spec: "every operation returns", What: "the TRUNCATE/query/write race did not come to rest (deadlock)"})
+	}
+	if tainted || hung || panicked {
+		// (after a panic inside Release the tag index mutex stays locked: the service cannot be inspected any more)
+		stopOnExit = false
 		res.Done(sec)
 		return
 	}
